@@ -120,6 +120,20 @@ static void densityCase(Rng &rng, CaseResult &r) {
         }
       }
     if (capSum != tot) r.fail("C16:coarse-view-capacity-differs", where + ": " + std::to_string(capSum) + " vs " + std::to_string(tot));
+    // every bin of the current (possibly coarser) view holds exactly the free area inside its limits
+    for (int i = 0; i < leg.nbBinsX() && r.viol.empty(); ++i)
+      for (int j = 0; j < leg.nbBinsY(); ++j) {
+        long long cap = 0;
+        for (auto &q : regs) {
+          long long w = std::min(q.maxX, leg.binLimitX(i + 1)) - std::max(q.minX, leg.binLimitX(i)), h = std::min(q.maxY, leg.binLimitY(j + 1)) - std::max(q.minY, leg.binLimitY(j));
+          if (w > 0 && h > 0) cap += w * h;
+        }
+        if (cap != leg.binCapacity(i, j)) { r.fail("C16:coarse-bin-capacity-differs-from-free-area", where + ": view bin " + std::to_string(i) + "," + std::to_string(j) + " capacity " + std::to_string(leg.binCapacity(i, j)) + " free area " + std::to_string(cap)); break; }
+      }
+    for (int i = 0; i < leg.nbBinsX(); ++i) if (leg.binLimitX(i) > leg.binLimitX(i + 1)) r.fail("C16:bin-limits-not-monotone", where);
+    for (int j = 0; j < leg.nbBinsY(); ++j) if (leg.binLimitY(j) > leg.binLimitY(j + 1)) r.fail("C16:bin-limits-not-monotone", where);
+    if (leg.binLimitX(0) != g.binLimitX(0) || leg.binLimitX(leg.nbBinsX()) != g.binLimitX(g.nbBinsX()) || leg.binLimitY(0) != g.binLimitY(0) || leg.binLimitY(leg.nbBinsY()) != g.binLimitY(g.nbBinsY()))
+      r.fail("C16:coarse-view-does-not-tile-the-area", where);
     for (int cc = 0; cc < n; ++cc) {
       int want = leg.cellDemand(cc) > 0 ? 1 : 0;
       if (cnt[cc] != want) r.fail(want ? "C16:cell-not-in-exactly-one-bin" : "C16:zero-area-cell-in-a-bin", where + ": cell " + std::to_string(cc) + " appears in " + std::to_string(cnt[cc]) + " bins");
